@@ -18,6 +18,16 @@ FIXED = [
  (["C02"], "be91290", "empty prefix intersected with a range open at its end planned as MultiGet{''}", "select * where key ^= '' & key >= 'a'"),
  (["C18"], "d06fdd0", "disjoint prefixes/ranges/keys not recognised when another condition stands between them in an AND chain: region scanned instead of no read", "select * where (key ^= 'ba') & ((key >= 'abc') & (key ^= 'ab'))"),
  (["C18"], "da48cdb", "finished prefix/range/full scan read one more key beyond its region on every further Batch call", "select * where key ^= 'a'  (batch mode, final empty Batch call)"),
+ (["C14", "C05"], "6d03155", "checker did not descend into ! operands, IN lists, BETWEEN bounds and index bases: !(key ^= 1), key in ('a'+1,'b') accepted; alias below ! never resolved", "select * where !(key ^= 1)"),
+ (["C06"], "f030517", "substr(key, 2, 1) on a 3-byte key (clamped end before start, or negative start) panicked with slice bounds out of range in row form, vector form and constant folding", "select substr(key, 2, 1) where true"),
+ (["C05", "C07"], "779436d", "a select field starting with an alias was typed before the alias was resolved (a + key typed as number): ORDER BY compared its text values as numbers, unlike the alias-expanded query", "select key, '47' as a, a + key as b where true order by b desc"),
+ (["C10"], "b916071", "len(split(value, ',')) refused with 'invalid type' (getListLength knew numeric slices only)", "select len(split(value, ',')) where true"),
+ (["C06", "C07"], "b92958b", "ORDER BY comparator asserted the right value to the Go type of the left one: panic for []byte vs string text, integer vs float sums, JSON members of varying type", "select key, json(value)['x'] as j where true order by j"),
+ (["C06", "C03"], "3e7cc07", "variadic functions with too few arguments (join(), list()) panicked in batch mode (no minimum-arity check in the vector path)", "select join() where true  (batch mode)"),
+ (["C06"], "39ebef9", "a select field defined through its own name (select upper(u) as u ...) built a cyclic expression: fatal stack overflow that recover() cannot stop", "select upper(u) as u where key = 'a'"),
+ (["C17", "C06"], "86fb009", "error rendering applied offsets of the original query to the trimmed query: leading blanks shifted the caret, many blanks / long queries panicked with slice bounds out of range", "'   select * where val = 1' rendered after BindQuery"),
+ (["C09"], "39d160b", "GROUP BY key was the concatenation of rendered values: ('a','bc') and ('ab','c') merged into one group", "select split(key,'|')[0] as g0, split(key,'|')[1] as g1, count(1) where true group by g0, g1"),
+ (["C14"], "5a16734", "unknown functions and wrong argument counts were found only at execution, after Cursor/Seek (or not at all on an empty store)", "select nosuch(value) where key ^= 'k'"),
 ]
 KNOWN = []
 def main():
